@@ -354,6 +354,10 @@ class ActionTextGenWalker(Walker):
         s_mbr = one(inst).S_MBR[836]()
         self.buf('.', s_mbr.Name)
         
+    def accept_V_ALV(self, inst):
+        self.accept(one(inst).V_VAL[840]())
+        self.buf('.length')
+        
     def accept_V_AVL(self, inst):
         self.accept(one(inst).V_VAL[807]())
         o_attr = one(inst).O_ATTR[806]()
